@@ -349,6 +349,7 @@ pub fn run_all() {
 }
 
 pub struct Summary {
+    pub steps_by: Vec<u64>,
     pub steps: u64,
     pub switches: u64,
     pub mid_op_parks: u64,
@@ -361,6 +362,7 @@ pub fn finish() -> Summary {
     let mut g = SCHED.lock().unwrap();
     let inner = g.take().unwrap();
     Summary {
+        steps_by: inner.steps_by.clone(),
         steps: inner.steps_total,
         switches: inner.switches,
         mid_op_parks: inner.mid_op_parks,
